@@ -194,3 +194,15 @@ Theorem C11_next_seq_in_lts :
                    next_outcome r s'.
 Proof. exact next_seq_in_lts. Qed.
 Print Assumptions C11_next_seq_in_lts.
+
+(** Soundness of the executable specification used on recorded forced
+    schedules (mode S): an accepted run's locked inserts and deliveries, in
+    recorded order, are a run of the abstract queue and satisfy the
+    history-level property. *)
+Theorem C11_K_sched_sound :
+  forall progs steps fb fl, check_case (CSched progs steps fb fl) = [] ->
+    exists k' acc',
+      ks_fold (mkKS [] false false (map (fun _ => KIdle) progs) progs false []) steps [] = Some (k', acc') /\
+      aq_replay acc' = Some (ks_aq k') /\ hist_ok acc' (ks_aq k').
+Proof. exact K_sched_check_sound. Qed.
+Print Assumptions C11_K_sched_sound.
